@@ -218,15 +218,26 @@ func VerifSupportedRevisions(disableFlowControl bool) []int32 {
 }
 
 // VerifFindMethod reports what findMethod resolves a method name to in the
-// given service descriptor: 0 = nothing, 1 = unary method, 2 = stream.
-func VerifFindMethod(sd *grpc.ServiceDesc, method string) int {
-	switch findMethod(sd, method).(type) {
+// given service descriptor: kind 0 = nothing, 1 = unary method, 2 = stream;
+// idx is the position of the descriptor in sd.Methods / sd.Streams.
+func VerifFindMethod(sd *grpc.ServiceDesc, method string) (kind int, idx int) {
+	switch d := findMethod(sd, method).(type) {
 	case *grpc.MethodDesc:
-		return 1
+		for i := range sd.Methods {
+			if d == &sd.Methods[i] {
+				return 1, i
+			}
+		}
+		return 1, -1
 	case *grpc.StreamDesc:
-		return 2
+		for i := range sd.Streams {
+			if d == &sd.Streams[i] {
+				return 2, i
+			}
+		}
+		return 2, -1
 	}
-	return 0
+	return 0, -1
 }
 
 // ---- reverse-tunnel registry ----
